@@ -299,7 +299,7 @@ HARNESSES = [
     Harness(
         "distance_mask_grid",
         h_mask_grid,
-        lambda tier, seed: [{"layout": "a4", "east": [0.1, 1.2, 2.4], "north": [0.2, 2.2]}, {"layout": "c3", "east": [9.5, 11.5], "north": [9.0, 10.5, 12.5], "dims": ("lat", "lon"), "proj": ("2", "-1/2"), "offsets": ("7", "-5/2")}] + ([{"layout": "c3", "east": [9.5, 11.5], "north": [9.0, 10.5, 12.5], "dims": ("lat", "lon")}, {"layout": "a4", "east": [0.1, 1.2, 2.4], "north": [0.2, 2.2], "proj": ("-1", "3")}] if tier == "thorough" else []),
+        lambda tier, seed: [{"layout": "a4", "east": [0.1, 1.2, 2.4], "north": [0.2, 2.2]}, {"layout": "c3", "east": [9.5, 11.5], "north": [9.0, 10.5, 12.5], "dims": ("lat", "lon"), "proj": ("2", "-1/2"), "offsets": ("7", "-5/2")}] + ([{"layout": "c3", "east": [9.5, 11.5], "north": [9.0, 10.5, 12.5], "dims": ("lat", "lon")}, {"layout": "a4", "east": [0.1, 1.2, 2.4], "north": [0.2, 2.2], "proj": ("-1", "3"), "offsets": ("-3", "1/2")}] if tier == "thorough" else []),
         bounds="concrete non-square grid (2x3 / 3x2) with symbolic values and default or custom dimension names, concrete data layout, symbolic maxdist, optional affine projection (symbolic offsets) applied to data and grid alike",
         stubs=["cKDTree -> nearest contract"],
         extra_globals=_globals,
